@@ -108,9 +108,9 @@ def sb7(facts, rep):
         idx = [(bb, t) for bb, t in r.calls() if call_info(t) and call_info(t)['fn'].endswith('Index::index') and
                fmt(strip(r.expr_operand(t['args'][0], inline_user=True))) == 'self.sample']
         if fmt(y) == 'self.s' and len(idx) == 1:
-            ie = strip_casts(r.expr_operand(idx[0][1]['args'][1], inline_user=False))
-            if ie[0] == 'bin' and ie[1] == 'Div' and fmt(strip_casts(ie[3])) == 'self.s' and strip_casts(ie[2]) == strip_casts(
-                    r.expr_operand({'c': {'l': x[1]}}, inline_user=False) if x[0] == 'local' else x) and \
+            # single-assignment locals (e.g. a cached `let s = self.s`) are looked through; `pos` itself is mutable
+            ie = strip_casts(r.expr_operand(idx[0][1]['args'][1], inline_user=True))
+            if ie[0] == 'bin' and ie[1] == 'Div' and fmt(strip_casts(ie[3])) == 'self.s' and strip_casts(ie[2]) == x and \
                     r.edge_dominates((g['bb'], g['t']), idx[0][0]):
                 ok_r = True
     if ok_r:
@@ -126,7 +126,7 @@ def sb7(facts, rep):
     if len(rs) == 1 and len(eidx) == 1 and rg:
         g2, lhs = rs[0]
         ebb, et = eidx[0]
-        kx = strip_casts(r.expr_operand(et['args'][1], inline_user=False))
+        kx = strip_casts(r.expr_operand(et['args'][1], inline_user=True))
         posx = rg[0][1]
         if r.edge_dominates((g2['bb'], g2['t']), ebb) and r.edge_dominates((rg[0][0]['bb'], rg[0][0]['f']), ebb) and \
                 kx == posx:
